@@ -322,7 +322,31 @@ func c13e2(prop string) []gw.E2Spec {
 		return gw.E2Spec{Name: "e2:" + name, Cfg: cfg, Setup: setup, Inject: inject, Then: settle, TimerChoices: true, Horizon: horizon, Check: check(cause, wantDisc)}
 	}
 	asleep := append(append([]string{}, active...), gw.EvC("DISCONNECT(5)", gw.Disconnect(5)))
+	// a client that goes to sleep the moment it sees CONNACK: the connect exchange must be over by then
+	sleepAtOnce := gw.E2Spec{Name: "e2:client sleeps the moment it gets CONNACK", Cfg: cfg, Setup: connecting,
+		Inject: []string{gw.EvB("CONNACK(0)", refmqtt.EncConnack(0))},
+		AutoClient: func(p refsn.Pkt, nth int) [][]byte {
+			if p.Type == refsn.CONNACK {
+				return [][]byte{gw.Disconnect(5)}
+			}
+			return nil
+		},
+		Then: []string{gw.EvAdvance(300 * time.Millisecond)}, Horizon: time.Second,
+		Check: func(g *gw.GW, sn []gw.SNOut, mq []gw.MQOut) []explore.Violation {
+			if prop != "C13" {
+				return nil
+			}
+			var names []string
+			for _, o := range sn {
+				names = append(names, o.String())
+			}
+			if g.Returned || g.H.VState().String() != "asleep" {
+				return []explore.Violation{{Property: "C13", Sig: "e2:sleep-right-after-connack-ends-session", Detail: fmt.Sprintf("the client answered CONNACK with DISCONNECT(5): session returned=%t state=%s, client got %v", g.Returned, g.H.VState(), names)}}
+			}
+			return nil
+		}}
 	return []gw.E2Spec{
+		sleepAtOnce,
 		mk("client-DISCONNECT|sleep pinger just started by a wake-up", asleep, time.Second, 1, "client-DISCONNECT", gw.EvC("PINGREQ(wake)", gw.Pingreq("c1")), gw.EvC("DISCONNECT(0)", gw.Disconnect(0))),
 		mk("client-DISCONNECT|sleep pinger just started by DISCONNECT(d)", active, time.Second, 2 /* one reply to each of the client's two DISCONNECTs */, "client-DISCONNECT", gw.EvC("DISCONNECT(5)", gw.Disconnect(5)), gw.EvC("DISCONNECT(0)", gw.Disconnect(0))),
 		mk("shutdown|retry-timer(pending q1)", pendingQ1, 7*time.Second, 1, "gateway-shutdown", gw.EvShutdown),
